@@ -17,12 +17,14 @@ arbitrary callables); the undocumented cycle check.
 import ast
 
 from ..core import AnalysisError, norm, short
+from ..astutil import assigned_value, argn
 from ..setalg import Universe, SetInterp, Opaque, Unmodelled
 from .. import effects
 from . import chain
 from .common import (cfg_of, fkey, conds, has_cond, stmts_of, walk_body, call_tail, call_name, returns_of, stmt_of, kwarg)
 
 ROUTE, APP = 'clastic.route', 'clastic.application'
+
 
 
 def check_eager_binding(rep, rule):
@@ -32,9 +34,14 @@ def check_eager_binding(rep, rule):
     # --- Application.__init__
     ai = app.func('Application.__init__')
     cfg = cfg_of(ai)
-    nr = [s for s in stmts_of(ai.node) if isinstance(s, ast.Assign) and isinstance(s.value, ast.Call) and call_tail(s.value) == 'bind'
-          and isinstance(s.value.func.value, ast.Call) and call_name(s.value.func.value) == 'NullRoute'
-          and s.value.args and norm(s.value.args[0]) == 'self']
+    def binds_null_route(v):
+        v = chain._deref(ai, v)
+        if not (isinstance(v, ast.Call) and isinstance(v.func, ast.Attribute) and v.func.attr == 'bind' and v.args and norm(v.args[0]) == 'self'):
+            return False
+        recv = chain._deref(ai, v.func.value)
+        return isinstance(recv, ast.Call) and call_name(recv) == 'NullRoute'
+    nr = [s for s in stmts_of(ai.node) if isinstance(s, ast.Assign) and any(norm(t) == 'self._null_route' for t in s.targets)
+          and binds_null_route(s.value)]
     ok = len(nr) == 1 and cfg.must_pass(cfg.nodes_of(nr[0]), cfg.entry, cfg.exit, normal_only=True) and norm(nr[0].targets[0]) == 'self._null_route'
     rep.check(rule, fkey(ai, 'null route bound'), ok,
               'the catch-all route is bound (with the application middlewares) on every construction path' if ok else
@@ -44,9 +51,24 @@ def check_eager_binding(rep, rule):
                  for b in s.body for c in ast.walk(b))]
     ok = len(loops) == 1 and cfg.must_pass(cfg.nodes_of(loops[0]), cfg.entry, cfg.exit, normal_only=True)
     if ok:
-        it = norm(loops[0].iter)
-        src = [s.value for s in stmts_of(ai.node) if isinstance(s, ast.Assign) and norm(s.targets[0]) == it]
-        ok = it == ai.params()[1] and all(norm(v) in ('%s or []' % it, 'list(%s or [])' % it, '%s or ()' % it) for v in src)
+        rp = ai.params()[1]
+
+        def all_routes(e, depth=0, rebinding=False):
+            """``e`` is the routes argument (every entry of it, in order), possibly defaulted to an empty list."""
+            if isinstance(e, ast.Call) and call_name(e) in ('list', 'tuple', 'iter') and len(e.args) == 1 and not e.keywords:
+                return all_routes(e.args[0], depth, rebinding)
+            if isinstance(e, ast.BoolOp) and isinstance(e.op, ast.Or) and len(e.values) == 2:
+                d = e.values[1]
+                return all_routes(e.values[0], depth, rebinding) and ((isinstance(d, (ast.List, ast.Tuple)) and not d.elts) or
+                                                                      (isinstance(d, ast.Call) and call_name(d) in ('list', 'tuple') and not d.args))
+            if isinstance(e, ast.Name):
+                vals = [v for st_, v, idx in assigned_value(ai.node, e.id)]
+                if e.id == rp:
+                    # the parameter; re-bound only from itself (routes = routes or [])
+                    return rebinding or all(all_routes(v, depth + 1, True) for v in vals)
+                return depth < 3 and len(vals) == 1 and all_routes(vals[0], depth + 1, rebinding)
+            return False
+        ok = all_routes(loops[0].iter)
         # the add call itself is unconditional in the loop body
         lcfg_ok = all(isinstance(b, ast.Expr) for b in loops[0].body if any(isinstance(c, ast.Call) and norm(c.func) == 'self.add' for c in ast.walk(b)))
         ok = ok and lcfg_ok
@@ -63,26 +85,53 @@ def check_eager_binding(rep, rule):
         why = 'inserted value %s is not bound by bind()/bind_all()' % short(val)
         if isinstance(val, ast.Name):
             # loop variable over a list that only comes from bind / bind_all
-            loop = [s for s in stmts_of(ad.node) if isinstance(s, ast.For) and norm(s.target) == val.id]
+            lst = None
+            loop = [s for s in stmts_of(ad.node) if isinstance(s, ast.For) and val.id in [n.id for n in ast.walk(s.target) if isinstance(n, ast.Name)]]
             if len(loop) == 1:
-                lst = norm(loop[0].iter)
-                srcs = [s.value for s in stmts_of(ad.node) if isinstance(s, ast.Assign) and norm(s.targets[0]) == lst]
-                good = []
-                for v in srcs:
-                    if isinstance(v, ast.Call) and call_tail(v) == 'bind_all' and v.args and norm(v.args[0]) == 'self':
-                        good.append(True)
-                    elif isinstance(v, ast.List) and len(v.elts) == 1 and isinstance(v.elts[0], ast.Call) and call_tail(v.elts[0]) == 'bind' \
-                            and v.elts[0].args and norm(v.elts[0].args[0]) == 'self':
-                        good.append(True)
-                    else:
-                        good.append(False)
-                ok = bool(good) and all(good)
+                tg, itx = loop[0].target, loop[0].iter
+                if isinstance(tg, ast.Name):
+                    lst = itx
+                elif isinstance(tg, ast.Tuple) and len(tg.elts) == 2 and norm(tg.elts[1]) == val.id and isinstance(itx, ast.Call) and \
+                        call_name(itx) == 'enumerate' and itx.args:
+                    lst = itx.args[0]       # for i, br in enumerate(bound_routes[, start])
+            while isinstance(lst, ast.Call) and call_name(lst) in ('list', 'tuple', 'iter') and len(lst.args) == 1:
+                lst = lst.args[0]
+
+            def method_of(f, name):
+                """The callee is ``<x>.<name>`` -- written out, or through a local bound to that attribute."""
+                if isinstance(f, ast.Attribute):
+                    return f.attr == name
+                if isinstance(f, ast.Name):
+                    vals = [v for st_, v, idx in assigned_value(ad.node, f.id)]
+                    return len(vals) == 1 and ((isinstance(vals[0], ast.Attribute) and vals[0].attr == name) or
+                                               (isinstance(vals[0], ast.Call) and call_name(vals[0]) == 'getattr' and len(vals[0].args) >= 2 and
+                                                isinstance(vals[0].args[1], ast.Constant) and vals[0].args[1].value == name))
+                return False
+
+            def bound_list(v):
+                if isinstance(v, ast.Call) and method_of(v.func, 'bind_all') and v.args and norm(v.args[0]) == 'self':
+                    return True
+                return isinstance(v, (ast.List, ast.Tuple)) and len(v.elts) == 1 and isinstance(v.elts[0], ast.Call) and \
+                    method_of(v.elts[0].func, 'bind') and bool(v.elts[0].args) and norm(v.elts[0].args[0]) == 'self'
+            if isinstance(lst, ast.Name):
+                srcs = [v for st_, v, idx in assigned_value(ad.node, lst.id)]
+                idxs = [idx for st_, v, idx in assigned_value(ad.node, lst.id)]
+                ok = bool(srcs) and all(i is None for i in idxs) and all(bound_list(v) for v in srcs)
+            elif lst is not None:
+                ok = bound_list(lst)
         rep.check(rule, fkey(ad, c), ok, 'only freshly bound routes (bind(self)/bind_all(self)) enter the routing table' if ok else why, app, c)
     # --- SubApplication.bind_all
     ba = app.func('SubApplication.bind_all')
     rets = returns_of(ba)
-    ok = len(rets) == 1 and isinstance(rets[0].value, ast.Name)
-    if ok:
+    app_p = ba.params()[1]
+
+    def rebinds(v):
+        return isinstance(v, ast.Call) and isinstance(v.func, ast.Attribute) and v.func.attr == 'bind' and bool(v.args) and norm(v.args[0]) == app_p
+    ok = len(rets) == 1 and isinstance(rets[0].value, (ast.Name, ast.ListComp))
+    if ok and isinstance(rets[0].value, ast.ListComp):
+        # return [rt.bind(app, ...) for rt in <inner routes> ...]
+        ok = rebinds(rets[0].value.elt)
+    elif ok:
         rv = rets[0].value.id
         apps = [c for c in walk_body(ba.node) if isinstance(c, ast.Call) and norm(c.func) in ('%s.append' % rv, '%s.extend' % rv, '%s.insert' % rv)]
         ok = bool(apps)
@@ -91,17 +140,21 @@ def check_eager_binding(rep, rule):
             if isinstance(v, ast.Name):
                 srcs = [s.value for s in stmts_of(ba.node) if isinstance(s, ast.Assign) and norm(s.targets[0]) == v.id]
                 v = srcs[0] if len(srcs) == 1 else v
-            ok = ok and isinstance(v, ast.Call) and call_tail(v) == 'bind' and v.args and norm(v.args[0]) == ba.params()[1]
+            ok = ok and rebinds(v)
         init = [s for s in stmts_of(ba.node) if isinstance(s, ast.Assign) and norm(s.targets[0]) == rv]
-        ok = ok and len(init) == 1 and isinstance(init[0].value, ast.List) and not init[0].value.elts
+        if len(init) == 1 and isinstance(init[0].value, ast.ListComp) and not apps:
+            ok = rebinds(init[0].value.elt)
+        else:
+            ok = ok and len(init) == 1 and isinstance(init[0].value, ast.List) and not init[0].value.elts
     rep.check(rule, fkey(ba, 'rebinds'), ok, 'every returned route is rt.bind(app, ...) of an inner route' if ok else
               'SubApplication.bind_all returns routes that were not re-bound to the embedding application', app, ba.node)
     # --- bind() methods
     for q in ('Route.bind', 'BoundRoute.bind'):
         f = route.func(q)
         rs = returns_of(f)
-        ok = len(rs) == 1 and isinstance(rs[0].value, ast.Call) and call_name(rs[0].value) == 'BoundRoute' and \
-            [norm(a) for a in rs[0].value.args[:2]] == ['self', f.params()[1]]
+        rv = chain._deref(f, rs[0].value) if len(rs) == 1 and rs[0].value is not None else None
+        ok = len(rs) == 1 and isinstance(rv, ast.Call) and call_name(rv) == 'BoundRoute' and \
+            [norm(a) for a in rv.args[:2]] == ['self', f.params()[1]]
         rep.check(rule, fkey(f), ok, '%s returns BoundRoute(self, app, ...)' % q if ok else '%s does not return a new BoundRoute(self, app)' % q, route, f.node)
     nb = route.func('NullRoute.bind')
     rs = returns_of(nb)
@@ -115,48 +168,32 @@ def check_eager_binding(rep, rule):
     ok = bool(cm) and cfg.must_pass(cfg.nodes_of_all(cm), cfg.entry, cfg.exit, normal_only=True)
     rep.check(rule, fkey(bi, 'check_middlewares'), ok, 'check_middlewares(...) is on every normal path of binding' if ok else
               'a BoundRoute can be constructed without check_middlewares', route, cm[0] if cm else bi.node)
-    ok = len(mk) == 1 and cfg.must_pass(cfg.nodes_of(mk[0]), cfg.entry, cfg.exit, normal_only=True) and norm(mk[0].targets[0]) == 'self._execute'
+    def stored_in_execute(st):
+        t = norm(st.targets[0])
+        if t == 'self._execute':
+            return True
+        # chain = make_middleware_chain(...); self._execute = chain
+        ex_asg = [s for s in stmts_of(bi.node) if isinstance(s, ast.Assign) and any(norm(x) == 'self._execute' for x in s.targets)]
+        return isinstance(st.targets[0], ast.Name) and len(assigned_value(bi.node, t)) == 1 and len(ex_asg) == 1 and \
+            norm(ex_asg[0].value) == t and cfg.must_pass(cfg.nodes_of(ex_asg[0]), cfg.nodes_of(st), cfg.exit, normal_only=True)
+    ok = len(mk) == 1 and cfg.must_pass(cfg.nodes_of(mk[0]), cfg.entry, cfg.exit, normal_only=True) and stored_in_execute(mk[0])
     rep.check(rule, fkey(bi, 'make_middleware_chain'), ok,
               'the chain is built (and all NameErrors raised) on every normal path of binding; result stored in self._execute' if ok else
               'a BoundRoute can be constructed without building its chain (lazy or skipped dependency check)', route, mk[0] if mk else bi.node)
     if mk:
         c = mk[0].value
         a = [norm(x) for x in c.args]
-        ok = len(a) == 4 and a[0] == 'self.middlewares' and a[1].endswith('.endpoint') and a[2] == 'render'
+        # the render the chain is built around is the one the route keeps (self.render): the same local, or the attribute
+        stored = [norm(s.value) for s in stmts_of(bi.node) if isinstance(s, ast.Assign) and any(norm(t) == 'self.render' for t in s.targets)]
+        render_ok = len(a) == 4 and (a[2] == 'self.render' or (a[2].isidentifier() and stored == [a[2]]))
+        ok = len(a) == 4 and a[0] == 'self.middlewares' and a[1].endswith('.endpoint') and render_ok
         rep.check(rule, fkey(bi, 'chain inputs'), ok, 'chain is built from (merged middlewares, endpoint, selected render, provided)' if ok else
                   'make_middleware_chain arguments changed: %s' % a, route, c)
         # provided = url | builtins | resources
-        uni = Universe(['URL', 'BUILTINS', 'RES'])
-
-        def model(it, e):
-            if isinstance(e, ast.Call) and call_name(e) in ('set', 'frozenset') and len(e.args) == 1:
-                t = norm(e.args[0])
-                if t in ('self.converters', 'self.converters.keys()', 'self.path_args'):
-                    return uni['URL']
-                if t == 'RESERVED_ARGS':
-                    return uni['BUILTINS']
-                if t in ('self.resources', 'self.resources.keys()'):
-                    return uni['RES']
-            return None
-        it = SetInterp(uni, model=model)
+        if len(c.args) < 4:
+            raise AnalysisError('BoundRoute.__init__: make_middleware_chain call without the preprovided argument')
         try:
-            # backward slice from the 4th argument: execute only the simple assignments it (transitively) depends on
-            need = set(n.id for n in ast.walk(c.args[3]) if isinstance(n, ast.Name))
-            prior = []
-            for s in stmts_of(bi.node):
-                if s is mk[0]:
-                    break
-                prior.append(s)
-            chosen = []
-            for s in reversed(prior):
-                if isinstance(s, (ast.Assign, ast.AugAssign)):
-                    tg = s.targets[0] if isinstance(s, ast.Assign) else s.target
-                    if isinstance(tg, ast.Name) and tg.id in need:
-                        chosen.append(s)
-                        need |= set(n.id for n in ast.walk(s.value) if isinstance(n, ast.Name))
-            for s in reversed(chosen):
-                it.exec_stmt(s)
-            got = it.eval(c.args[3])
+            uni, got = chain.eval_bind_sources(repo, c.args[3], mk[0])
         except Unmodelled as e:
             raise AnalysisError('BoundRoute.__init__ provided set: %s' % e)
         want = uni['URL'] | uni['BUILTINS'] | uni['RES']
@@ -174,7 +211,8 @@ def check_eager_binding(rep, rule):
               '_execute is written at: %s' % ', '.join('%s' % w[1].key for w in writers), route, bi.node)
     ex = route.func('BoundRoute.execute')
     inj = [c for c in walk_body(ex.node) if isinstance(c, ast.Call) and call_name(c) == 'inject']
-    ok = len(inj) == 1 and norm(inj[0].args[0]) == 'self._execute' and any(r.value is inj[0] for r in returns_of(ex))
+    ok = len(inj) == 1 and norm(inj[0].args[0]) == 'self._execute' and \
+        any(r.value is not None and chain._deref(ex, r.value) is inj[0] for r in returns_of(ex))
     rep.check(rule, fkey(ex, 'inject(self._execute)'), ok, 'execute() runs exactly the chain compiled at bind time' if ok else
               'execute() does not inject into the chain compiled at bind time', route, ex.node)
     # no code between chain construction and use rebuilds lazily: BoundRoute has no __getattr__/property named _execute
